@@ -229,7 +229,7 @@ func harnesses(r *fw.Run) []fw.HarnessSpec {
 				return
 			}
 		}
-		for k := 0; k < len(all) && k < 48; k++ { // flipped leading bits
+		for k := 0; k < len(all); k++ { // every single flipped bit (flag bits of Maybe / Either fields sit anywhere in the cell)
 			f := append(bits.Bits{}, all...)
 			f[k] = !f[k]
 			if !try(mk(f, refs)) {
